@@ -33,6 +33,13 @@ SAME_NAMES_OTHER_TYPES = rs("sel/rec", [["string", "n"], ["varint", "m"], ["vari
                                         ["string", "p"], ["string", "ip"], ["string", "nw"], ["string", "u"], ["string", "none"], ["record", "sub"]],
                             ["'a'", "3", "1", "'ab'", "'a'", "1", "['a','b']", "'a'", "'a'", "'ab'", "'a'", "None", None])
 
+# a string / uri / varint value two levels down, below records that have no field of those types themselves
+DEEP = rs("sel/outer", [["boolean", "flag"], ["record", "sub"]],
+          ["True", rs("sel/mid", [["boolean", "flag"], ["record[]", "kids"]], ["False", [SUB("'a'", "3"), SUB("'ab'", "1")]])])
+# two types of one name whose (name, hash) identifiers coincide (the hash covers the concatenated field names and types only)
+TWIN1 = rs("sel/twin", [["stringlist", "a"], ["string", "b"]], ["['a', 'ab']", "'a'"])
+TWIN2 = rs("sel/twin", [["string", "a"], ["string", "listb"]], ["'zz'", "'ab'"])
+
 INT = ["r.n", "r.m", "0", "1", "3", "10"]
 FLT = ["r.f", "1.5"]
 STR = ["r.s", "r.t", "'a'", "'A'", "'ab'", "''"]
